@@ -46,6 +46,7 @@ var Prop = &engine.Prop{
 		{Name: "linz", Quick: 1600, Thorough: 64000, Repeat: 20, Fn: linzCase},
 		{Name: "evict-race", Quick: 40, Thorough: 1600, Fn: evictRaceCase},
 		{Name: "big-size", Quick: 16, Thorough: 320, Fn: bigSizeCase},
+		{Name: "siblings", Quick: 4000, Thorough: 200000, Fn: siblingsCase},
 	},
 	Floors: map[string]int64{
 		"hit":                       5000,
@@ -79,6 +80,8 @@ var Prop = &engine.Prop{
 		"oneshot_rounds_live_setnx": 20,
 		"linz_histories_checked":    200,
 		"big_size_cases":            8,
+		"sibling_cases":             1000,
+		"sibling_replacements":      200,
 	},
 }
 
@@ -340,4 +343,87 @@ func probeAll(lg *runLog, c cache.TTLCache, m *model) (hits int) {
 		m.cnt["probe_full_cache"]++
 	}
 	return hits
+}
+
+// ---------------------------------------------------------------- kind "siblings"
+
+// siblingsCase: caches are independent of one another. Two in-memory caches with their own
+// sizes and default lifetimes, the same key names and one clock run interleaved programs, each
+// against its own model; at some point one of them is cleared, dropped and replaced by a new
+// one (whose model starts empty). Values are unique over both, so anything that travels
+// between instances - pooled entries, a shared table, a package-level default - shows as a
+// wrong hit, a wrong value or a wrong eviction.
+func siblingsCase(k *engine.Case) {
+	r := k.R
+	cfg := [2]memCfg{genMemCfg(r), genMemCfg(r)}
+	cfg[1].start = cfg[0].start
+	restore := installClock(cfg[0].start)
+	defer restore()
+	clock.Store(cfg[0].start)
+	cnt := counters{}
+	defer cnt.flush(k)
+	lg := &runLog{}
+	defer flushOnPanic(k, lg)
+	var v verdict
+	var c [2]cache.TTLCache
+	var m [2]*model
+	mk := func(t int, now int64) {
+		c[t] = cache.NewTTLMemCache(cfg[t].size, cfg[t].defTTL)
+		m[t] = newModel(cfg[t].nkeys, cfg[t].size, cfg[t].defTTL, now, cnt, func(class, format string, a ...any) {
+			if v.class == "" {
+				v = verdict{class, fmt.Sprintf("cache %c: ", 'A'+t) + fmt.Sprintf(format, a...)}
+			}
+		})
+		lg.Logf("cache %c = NewTTLMemCache(size=%d, ttl=%d), %d keys", 'A'+t, cfg[t].size, cfg[t].defTTL, cfg[t].nkeys)
+	}
+	mk(0, cfg[0].start)
+	mk(1, cfg[0].start)
+	steps := 20 + r.Intn(70)
+	replaceAt := -1
+	if r.Intn(2) == 0 {
+		replaceAt = r.Intn(steps)
+	}
+	nextVal := 1
+	for i := 0; i < steps && v.class == ""; i++ {
+		t := r.Intn(2)
+		if i == replaceAt {
+			// the cache is emptied and given up; a new one takes its place
+			o := op{kind: oClear}
+			out := apply(c[t], &o)
+			m[t].step(&o, out)
+			lg.Logf("%02d %c %s -> %s; cache %c is dropped and replaced", i, 'A'+t, &o, out, 'A'+t)
+			mk(t, m[1-t].now)
+			cnt["sibling_replacements"]++
+			continue
+		}
+		o := genMemOp(r, cfg[t].nkeys, &nextVal)
+		switch o.kind {
+		case oTick:
+			clock.Add(o.dt)
+			m[0].tick(o.dt)
+			m[1].tick(o.dt)
+			lg.Logf("%02d %s -> clock %d", i, &o, m[0].now)
+		case oProbe:
+			lg.Logf("%02d %c probe-all", i, 'A'+t)
+			probeAll(lg, c[t], m[t])
+		default:
+			out := apply(c[t], &o)
+			lg.Logf("%02d %c %s -> %s", i, 'A'+t, &o, out)
+			m[t].step(&o, out)
+		}
+	}
+	for t := 0; t < 2 && v.class == ""; t++ {
+		lg.Logf("final probe-all of cache %c", 'A'+t)
+		probeAll(lg, c[t], m[t])
+	}
+	lg.flush(k)
+	k.Evals(1)
+	cnt["sibling_cases"]++
+	if v.class != "" {
+		k.Fail(v.class, "two caches side by side: %s", v.detail)
+		return
+	}
+	if cnt["hit"] > 0 {
+		k.Nontrivial()
+	}
 }
